@@ -12,14 +12,16 @@ record("PipelineStage", file="jade/models/pipeline.py", pydantic=True, fields={
 
 ghost("submitted_stages", "List[int]")     # stage numbers handed to JobSubmitter.run_submit_jobs, in order
 ghost("pipeline_saves", "int")             # number of times pipeline.json was rewritten
+ghost("persisted_stage", "int")            # the stage number in pipeline.json on disk (what the next completion trigger is compared with)
 
 for name, ret in [("stage_num", "int"), ("path", "Opt[Opaque]"), ("stages", "List[Ref[PipelineStage]]"), ("config", "Ref[PipelineConfig]")]:
     contract("PipelineManager." + name, file=F, inline=True, params=[("self", "Ref[PipelineManager]")], returns=ret)
 contract("JobConfiguration.submission_groups", file="jade/jobs/job_configuration.py", inline=True,
          params=[("self", "Ref[JobConfiguration]")], returns="List[Ref[SubmissionGroup]]")
 contract("PipelineManager._serialize", kind="assumed", params=[("self", "Ref[PipelineManager]")],
-         ensures=["ghost.pipeline_saves == old(ghost.pipeline_saves) + 1"], modifies=["ghost.pipeline_saves"],
-         note="writes pipeline.json from self._config.json() (T-fs/T-pyd)")
+         ensures=["ghost.pipeline_saves == old(ghost.pipeline_saves) + 1", "ghost.persisted_stage == self._config.stage_num"],
+         modifies=["ghost.pipeline_saves", "ghost.persisted_stage"],
+         note="writes pipeline.json from self._config.json() (T-fs/T-pyd); ghost: the stage number pipeline.json now carries")
 contract("PipelineManager._run_auto_config", kind="assumed", params=[("self", "Ref[PipelineManager]"), ("stage", "Ref[PipelineStage]")],
          raises={"ExecutionError": {}}, modifies=["stage.config_file"], note="runs the user's auto-config command (not decided: its effects)")
 contract("PipelineManager.get_stage_output_path", kind="assumed", pure=True, note="heap-independent",
@@ -32,6 +34,9 @@ contract("JobConfiguration.assign_default_submission_group", kind="assumed",
 contract("JobSubmitter.run_submit_jobs", kind="assumed",
          params=[("config", "Ref[JobConfiguration]"), ("output", "Opaque"), ("local", "bool", "False"), ("dry_run", "bool", "False"),
                  ("pipeline_stage_num", "Opt[int]", "None")], returns="int",
+         # C15: the stage is handed over only after pipeline.json records it - the stage's own completion (in local mode: inside this call)
+         # triggers `submit-next-stage <n+1>`, which is compared with the number on disk
+         requires=["implies(not isnone(pipeline_stage_num), ghost.persisted_stage == val(pipeline_stage_num))"],
          ensures=["implies(not isnone(pipeline_stage_num), len(ghost.submitted_stages) == old(len(ghost.submitted_stages)) + 1 "
                   "and ghost.submitted_stages[old(len(ghost.submitted_stages))] == val(pipeline_stage_num) "
                   "and forall(i, range(old(len(ghost.submitted_stages))), ghost.submitted_stages[i] == old(ghost.submitted_stages)[i]))"],
@@ -77,4 +82,4 @@ contract("PipelineManager._submit_next_stage", file=F,
              "FileNotFoundError": {"ensures": [], "frame": False},
          },
          modifies=["PipelineStage.return_code", "PipelineStage.config_file", "self._config.stage_num", "self._config.is_complete",
-                   "ghost.submitted_stages", "ghost.pipeline_saves", "JobConfiguration._submission_groups", "JadeJob.submission_group"])
+                   "ghost.submitted_stages", "ghost.pipeline_saves", "ghost.persisted_stage", "JobConfiguration._submission_groups", "JadeJob.submission_group"])
